@@ -313,7 +313,15 @@ func (a *Agent) SetTags(tags map[string]string) error {
 	}
 
 	// Set the tags in Serf, start gossiping out
-	return a.serf.SetTags(tags)
+	err := a.serf.SetTags(tags)
+	if err != nil && a.agentConf.TagsFile != "" {
+		// The edit may have been rejected: keep the tags file in step with
+		// the tags that are in effect, so that a restart loads those.
+		if werr := a.writeTagsFile(a.conf.Tags); werr != nil {
+			a.logger.Printf("[ERR] agent: %s", werr)
+		}
+	}
+	return err
 }
 
 // loadTagsFile will load agent tags out of a file and set them in the
